@@ -250,7 +250,12 @@ mod kani_c08 {
     #[kani::proof] #[kani::stub(crate::wire::ip::checksum::data, data_contract)] #[kani::unwind(48)] fn c08_parse_udp_v6_enforces() { c08_parse_udp(true, false) }
     #[kani::proof] #[kani::stub(crate::wire::ip::checksum::data, data_contract)] #[kani::unwind(48)] fn c08_parse_udp_v6_enforces_xk() { c08_parse_udp(true, true) }
 
-    #[kani::proof] #[kani::stub(crate::wire::ip::checksum::data, data_contract)] #[kani::unwind(40)]
+    /// with a data offset of 5 words no option is parsed: the option parser "is not called" (a panic if it were), which keeps the
+    /// 40 unrolled copies of the option walk trivial (its loop bound is not foldable by CBMC)
+    fn tcp_option_not_called<'a>(_b: &'a [u8]) -> crate::wire::Result<(&'a [u8], TcpOption<'a>)> where 'a: 'a {
+        panic!("C08: no TCP option is parsed in a segment without options")
+    }
+    #[kani::proof] #[kani::stub(crate::wire::ip::checksum::data, data_contract)] #[kani::stub(crate::wire::TcpOption::parse, tcp_option_not_called)] #[kani::unwind(40)]
     fn c08_parse_tcp_v4_enforces() {
         let buf: [u8; 20 + P] = kani::any();
         let n: usize = kani::any();
